@@ -197,6 +197,9 @@ def run(ctx):
                 # ~sqrt(eps) of its size whatever the root finder; compare with that conditioning, not with 1e-9
                 near_double = abs(m["sbig"] - m["s"]) <= 1e-3 * abs(m["s"])
                 rt = 1e-6 if near_double else 1e-9
+                # np.roots takes the eigenvalues of the companion matrix: the SMALL root of a pair of widely separated roots carries
+                # an absolute error ~ eps * |big root| (thorough seed 79: roots 1e-3 and -4.9e4, relative error 1.9e-9 on the small one)
+                rt = max(rt, 4e-15 * abs(m["sbig"] / m["s"]))
                 if not (close(dp, m["s"], max(abs(m["s"]), 1e-300), rtol=rt) or (tie_roots and close(-dp, m["s"], abs(m["s"])))):
                     ctx.corr_mismatch("hop.root", c, "impl scale %r, model root %r (other %r)" % (dp, m["s"], m["sbig"]))
         if not ok:
